@@ -127,6 +127,24 @@ class NameSanitizer:
         "helpers",
     }
 
+    # Class names that every generated endpoints / models module binds in its own namespace (typing constructs, the
+    # runtime's transport and error classes, the serializer): a model class of the same name would replace them there
+    # ("Protocol" -> TypeError at import, "AsyncIterator" -> not subscriptable, "DataclassSerializer" -> no serialize()).
+    RESERVED_CLASS_NAMES = {
+        "Protocol",
+        "AsyncIterator",
+        "DataclassSerializer",
+        "NoReturn",
+        "Optional",
+        "Union",
+        "Annotated",
+        "TypeAlias",
+        "Enum",
+        "HttpTransport",
+        "ClientError",
+        "ServerError",
+    }
+
     @staticmethod
     def sanitize_module_name(name: str) -> str:
         """Convert a raw name into a valid Python module name in snake_case,
@@ -192,6 +210,7 @@ class NameSanitizer:
             keyword.iskeyword(cls_name)
             or keyword.iskeyword(cls_name.lower())
             or cls_name.lower() in NameSanitizer.RESERVED_NAMES
+            or cls_name in NameSanitizer.RESERVED_CLASS_NAMES
         ):
             cls_name += "_"
         return cls_name
